@@ -236,7 +236,7 @@ pub fn def() -> PropDef {
         assumptions: &["no exact value is asserted, only the stated laws", "character classes are those of lang_english (vowel/consonant), digits NotAlpha, others Any"],
         spaces: vec![
             Space { name: "small", decode: decode_small, plan: |t| match t { Tier::Quick => Plan::Enumerate(enumerate_pairs(3), true, "all ordered pairs of words of length <= 3 over 6 symbols"), Tier::Thorough => Plan::Enumerate(enumerate_pairs(4), true, "all ordered pairs of words of length <= 4 over 6 symbols") } },
-            Space { name: "random", decode: decode_random, plan: |t| Plan::Random(t.n(60_000, 2_000_000)) },
+            Space { name: "random", decode: decode_random, plan: |t| Plan::Random(t.n(200_000, 4_000_000)) },
         ],
         differential: false,
     }
